@@ -267,9 +267,8 @@ def run(tier='quick', seed=0):
     tasks = [(n, cn, t) for n, (cn, t) in sorted(table.items())]
     ctx = mp.get_context('fork')
     all_obs = []
-    with ctx.Pool(processes=min(16, os.cpu_count() or 4), maxtasksperchild=16) as pool:
-        for obs in pool.imap_unordered(task, tasks, chunksize=4):
-            all_obs.extend(obs)
+    from ..par import collect
+    all_obs.extend(collect(task, tasks, 12, 600, lambda t, why: dict(oid=f'C16/worker/{t[0]}', status='undecided', detail=why, paths=0, level='proved', name=t[0], cname=t[1], kind='worker')))
     all_obs.extend(render_scenarios(3 if tier == 'quick' else 4))
     n, bad = et_assumption_sample(seed)
     R.extra['et_assumption_sample'] = dict(strings=n, first_mismatch=bad)
